@@ -236,6 +236,7 @@ pub struct Sim {
     /// Both orders are legitimate schedules of a real runtime.
     pub spawned_first: bool,
     frozen: Vec<u64>,
+    starved: Vec<bool>,
     settles: u64,
 }
 
@@ -256,6 +257,7 @@ impl Sim {
             spurious_polls: std::env::var_os("VCHECK_NO_SPURIOUS").is_none(),
             spawned_first: false,
             frozen: vec![],
+            starved: vec![],
             settles: 0,
         }
     }
@@ -373,6 +375,16 @@ impl Sim {
         self.frozen[i] = until_ms;
     }
 
+    /// The task's first poll starts with an exhausted cooperative budget (it did 128 units of
+    /// other ready tokio work in the same poll before reaching the future under test); tokio
+    /// primitives then return Pending once, whatever their state, and the task is polled again.
+    pub fn starve_first_poll(&mut self, i: usize) {
+        if self.starved.len() <= i {
+            self.starved.resize(i + 1, false);
+        }
+        self.starved[i] = true;
+    }
+
     fn is_frozen(&self, i: usize) -> bool {
         self.frozen.get(i).map_or(false, |&u| now() < u)
     }
@@ -406,6 +418,16 @@ impl Sim {
             Waker::from(slot.flag.clone())
         };
         let mut cx = Context::from_waker(&waker);
+        if slot.polls == 1 && self.starved.get(i).copied().unwrap_or(false) {
+            // the task has used up its cooperative budget on other ready work in this very poll
+            // before it gets to the future under test
+            let mut guard = 0;
+            while tokio::task::coop::has_budget_remaining() && guard < 10_000 {
+                let mut f = Box::pin(tokio::task::coop::consume_budget());
+                let _ = Future::poll(f.as_mut(), &mut cx);
+                guard += 1;
+            }
+        }
         let fut = slot.fut.as_mut().unwrap();
         CURRENT_TASK.with(|c| c.set(i as i32));
         let r = catch_unwind(AssertUnwindSafe(|| fut.as_mut().poll(&mut cx)));
